@@ -108,6 +108,21 @@ CHECKS = [
            "positions, normal scores, larger point sets and columns are validated by SummariesTrace.tla.",
       note="KDE and norm.ppf values not decided (range/order only); dyadic lhs ranges",
       technique=TLA),
+ dict(property_id="C01", category="other", design_ref="3.19",
+      text="Two specification layers: TransformExact.tla is an exact rational oracle for every class/parameter setting where forward is rational "
+           "(TLC checks monotonicity and derivative identities on the lattice and generates the cases; forward and backward of the real code are "
+           "compared with the exact values), and TransformTrace.tla validates the 1e-6 round-trip relation on recorded float64 values (24-bit "
+           "mantissa/exponent pairs) for ~280 settings of all 13 classes including every branch value. Accuracy of log/exp/pow outside the rational "
+           "sub-domain is not decided, hence level 'other'.",
+      note="conditioning regions of the property with a margin; relations between recorded values only outside the rational sub-domain",
+      technique="TLA+ exact rational oracle (TLC-generated cases replayed) + TLC trace validation of float relations"),
+ dict(property_id="C02", category="other", design_ref="3.20",
+      text="TransformExact.tla: TLC proves on the rational sub-domain that the stated Jacobian equals the derivative of forward (5-point stencil exact "
+           "on polynomial branches), is positive, and that forward is strictly increasing; jacobian() of the real code is compared with these exact "
+           "values (plus closed forms for Log, Logit, Sinh, Softmax); TransformTrace.tla checks monotonicity of recorded forward values and the stencil "
+           "relation 8(f(x+h)-f(x-h))-(f(x+2h)-f(x-2h)) = 12hJ at 1e-4 on mantissa pairs for all classes.",
+      note="stencil marked inconclusive when cancellation leaves < 13 bits; never straddles a branch change",
+      technique="TLA+ exact rational oracle (TLC-generated cases replayed) + TLC trace validation of float relations"),
 ]
 
 _PENDING = "check not built yet in this round; see DESIGN.md section 3 for the planned specification"
